@@ -141,12 +141,16 @@ Refresh ==
 Advertised == IF PCTL \in Prof THEN Prof \ {PAWAY, PLESS} ELSE Prof
 GetCaps == /\ sup' = Advertised /\ out' = NoOut /\ UNCHANGED <<attr, beep, upd, reg, written, rb>>
 
+(* the unit spreads its capabilities over two pages (ids below 0x40 on the first) and the request for the second page goes unanswered: what the    *)
+(* first page announced still counts - taken as it stands, the breeze control that would supersede the legacy ids was on the page that never came *)
+GetCapsPage1 == /\ sup' = {i \in Prof : i < 64} /\ out' = NoOut /\ UNCHANGED <<attr, beep, upd, reg, written, rb>>
+
 Angles == {0, 1, 25, 50, 75, 100}
 Rates == {100, 50, 75, 1, 20, 40, 60, 80}
 DNext == \/ \E b \in BOOLEAN : SetBreezeAway(b) \/ SetBreezeMild(b) \/ SetBreezeless(b) \/ SetIeco(b) \/ SetBeep(b)
          \/ \E v \in Rates : SetRate(v)
          \/ \E v \in Angles : SetLR(v) \/ SetUD(v)
-         \/ Apply \/ Refresh \/ GetCaps \/ StartSelfClean \/ CleanDone
+         \/ Apply \/ Refresh \/ GetCaps \/ GetCapsPage1 \/ StartSelfClean \/ CleanDone
 
 (* ---------------- properties ---------------- *)
 ReadBackEqual == rb
